@@ -67,7 +67,7 @@ def units(tier):
 
 
 def meta(tier):
-    return dict(bounds=dict(programs="catalogue templates flagged 'one' in program / subroutine / typed function context, all pairs of the subset's block constructs nested",
+    return dict(bounds=dict(programs="catalogue templates flagged 'one' in program / subroutine / typed function context, every unit context flagged 'one' (RESULT clauses, typed result, ENTRY ...), all pairs of the subset's block constructs nested",
                             forms=["free", "fixed"], analyze=[False, True], symbolic="one lexeme hole (default length) per unit"),
                 assumptions=["ignore_comments=True; the '!BEGINSOURCE' header line, indentation and blanks after a statement label are ignored",
                              "names differ from keywords/intrinsics"],
